@@ -21,7 +21,7 @@
        extracted cards, from which `region` assembles a symbolic image of every region class of the
        file (one word per value; lengths = word counts; H = BLAKE3 as a Section-free parameter).
    `deps c` tags each region class with the oracle sources it can depend on. *)
-From MV Require Import Base.Prelude Model.Store Model.StoreSpec Model.Reads.
+From MV Require Import Base.Prelude Model.Store Model.StoreSpec Model.Reads Model.StableSort.
 Local Open Scope N_scope.
 
 Inductive src := SegId | Sched | Now | HashOrd | TmpName.
@@ -345,6 +345,34 @@ Definition known_class (c : rclass) : bool := match deps c with [] => false | _ 
 (* ---------- the read side: the frame filter reaches the engine in hash-set order ---------- *)
 Definition rotate {A} (k : nat) (l : list A) : list A := skipn (k mod (length l + 1)) l ++ firstn (k mod (length l + 1)) l.
 Definition hashed_filter (o : oracle) (k : nat) (filter : list N) : list N := rotate (N.to_nat (o_hord o k)) filter.
+
+(* ---------- the read side: Memvid::find_sketch_candidates ---------- *)
+(* The sketch track holds one entry per committed frame with index text, in frame order (apply_records
+   inserts them in id order; nothing removes one).  SketchTrack::find_candidates scans self.iter() = the
+   frame_order vector, keeps the entries QuerySketch::score_entry accepts (term filter, Hamming threshold),
+   sorts them by score descending with a STABLE sort (slice::sort_by) and truncates to max_candidates.
+   A frame's sketch is a function of its index text, abstracted here by the content tag; `score` is a
+   Section variable.  The observation is a function of the logical state alone; no oracle is an argument. *)
+Section SketchCandidates.
+  Variable query : Type.
+  Variable score : N -> query -> N -> option N.     (* content tag, query, Hamming threshold *)
+
+  Definition tag_of (st : dstate) (i : N) : N := match get (frames_of st) i with Some f => f_tag f | None => 0 end.
+  Definition sketch_entries (st : dstate) : list (N * N) := map (fun i => (i, tag_of st i)) (r_sketch st).
+  Definition scored (es : list (N * N)) (q : query) (thr : N) : list (N * N) :=
+    flat_map (fun e => match score (snd e) q thr with Some sc => [(fst e, sc)] | None => [] end) es.
+  Definition by_score_desc (x y : N * N) : bool := snd y <=? snd x.
+  Definition rank (es : list (N * N)) (q : query) (thr : N) (max : nat) : list (N * N) :=
+    firstn max (isort by_score_desc (scored es q thr)).
+
+  Definition sketch_candidates (st : dstate) (q : query) (thr : N) (max : nat) : list (N * N) :=
+    rank (sketch_entries st) q thr max.
+
+  (* what a scan in the iteration order of the entry HashMap would compute (NOT what the code does): the
+     k-th HashOrd draw decides the scan order; with tied scores the stable sort keeps that order *)
+  Definition sketch_candidates_hashed (o : oracle) (k : nat) (st : dstate) (q : query) (thr : N) (max : nat) : list (N * N) :=
+    rank (rotate (N.to_nat (o_hord o k)) (sketch_entries st)) q thr max.
+End SketchCandidates.
 
 (* a toy hash for executable instances (theorems hold for every H) and the class numbering of the harness *)
 Definition toyH (l : list N) : N := fold_left (fun a x => (a * 31 + x) mod 1000003) l 7.
